@@ -326,7 +326,7 @@ def queries(tier, seed):
                              f"{'Diameter(config=...) / Config.__init__' if via == 'diameter' else '_convert_config_to_connection_obj'}"))
     for oname in (("identity", "reversed") if tier == "quick" else list(orders)):
         qs.append(Q(f"verbatim/{oname}", "verbatim", {"order": orders[oname]}, cto=t, pto=t, what=f"host names, realm, ports reflected verbatim, key order {oname}"))
-        if oname == "identity":
+        if oname == "identity" and tier != "quick":      # (symbolic names through the base-message templates: ~10 min)
             qs.append(Q("verbatim/diameter", "verbatim", {"order": orders[oname], "via": "diameter"}, cto=t, pto=t, what="the same through Diameter(config=...)"))
         if oname == "identity":
             for n_ in (1, 2):
